@@ -50,8 +50,11 @@ struct verif_in {
 	/* data blocks 0..ND-1, parity blocks ND..ND+NP-1 (holding arbitrary bytes before the call), each
 	 * followed by GUARD bytes that nobody may write. The REAL function works directly on this object, so the
 	 * bytes it reads are the very symbols the specification is evaluated on. */
-	uint8_t blk[ND + NP][SIZE + GUARD] __attribute__((aligned(64)));
+	/* ONE flat array (rows of a 2-D array are slow and hit the cbmc defect of DESIGN 2.3): block d is blk[d*STRIDE ..] */
+	uint8_t blk[(ND + NP) * (SIZE + GUARD)] __attribute__((aligned(64)));
 };
+#define STRIDE (SIZE + GUARD)
+#define BLK(d, c) IN.blk[(d) * STRIDE + (c)]
 VERIF_DECLARE_IN
 
 /*
@@ -87,18 +90,18 @@ void h_gen(void)
 	for (d = 0; d < ND; ++d)
 		if (d < SYM_LO || d >= SYM_HI)
 			for (c = 0; c < SIZE; ++c)
-				IN.blk[d][c] = (uint8_t)((d * 167u + c * 59u + FILL_SEED * 101u + 1u) ^ ((d * 13u) >> 3));
+				BLK(d, c) = (uint8_t)((d * 167u + c * 59u + FILL_SEED * 101u + 1u) ^ ((d * 13u) >> 3));
 	for (d = 0; d < ND + NP; ++d) {
-		v[d] = IN.blk[d];
+		v[d] = &BLK(d, 0);
 		for (c = 0; c < SIZE + GUARD; ++c)
-			snap[d][c] = IN.blk[d][c];
+			snap[d][c] = BLK(d, c);
 	}
 	/* specification, evaluated on the pre-state */
 	for (j = 0; j < NP; ++j)
 		for (c = 0; c < SIZE; ++c) {
 			uint8_t s = 0;
 			for (d = ND - 1; d >= 0; --d)
-				s ^= spec_mul(spec_coef(j, d), IN.blk[d][c]);
+				s ^= spec_mul(spec_coef(j, d), BLK(d, c));
 			expect[j][c] = s;
 		}
 
@@ -116,14 +119,14 @@ void h_gen(void)
 
 	for (j = 0; j < NP; ++j)
 		for (c = 0; c < SIZE; ++c)
-			VERIF_ASSERT(IN.blk[ND + j][c] == expect[j][c], "GEN parity[j][c] == sum_d A[j][d]*D[d][c]");
+			VERIF_ASSERT(BLK(ND + j, c) == expect[j][c], "GEN parity[j][c] == sum_d A[j][d]*D[d][c]");
 	for (d = 0; d < ND; ++d)
 		for (c = 0; c < SIZE; ++c)
-			VERIF_ASSERT(IN.blk[d][c] == snap[d][c], "GEN data blocks untouched");
+			VERIF_ASSERT(BLK(d, c) == snap[d][c], "GEN data blocks untouched");
 	for (d = 0; d < ND + NP; ++d) {
-		VERIF_ASSERT(v[d] == (void *)IN.blk[d], "GEN pointer vector untouched");
+		VERIF_ASSERT(v[d] == (void *)&BLK(d, 0), "GEN pointer vector untouched");
 		for (c = SIZE; c < SIZE + GUARD; ++c)
-			VERIF_ASSERT(IN.blk[d][c] == snap[d][c], "GEN nothing written past size");
+			VERIF_ASSERT(BLK(d, c) == snap[d][c], "GEN nothing written past size");
 	}
 	VERIF_CANARY();
 }
